@@ -19,10 +19,11 @@ def main():
     common.use_repo()
     mod = importlib.import_module(f"props.{a.pid.lower()}")
     try:
-        if a.replay:
-            rc = mod.replay(a.replay)
-        else:
-            rc = mod.run(tier, seed)
+        with common.RepoLock():
+            if a.replay:
+                rc = mod.replay(a.replay)
+            else:
+                rc = mod.run(tier, seed)
     except common.ModelError as e:
         print(f"HARNESS-ERROR {a.pid}: {e}", file=sys.stderr)
         rc = 2
